@@ -1231,8 +1231,25 @@ func c8parallelDemand(c *Ctx) {
 		case pc.wc.ticks > pc.limit && pc.wc.ticks <= 10*pc.limit+500:
 			// the read-ahead of a parallel stage is not bounded by the number of workers: while the collector waits for the
 			// item that is next in sequence (or for the processor) the other workers go on. On a busy machine the expected
-			// figure is exceeded; only an order of magnitude more (every seeded defect walks the whole source) is a violation
-			c.Count("parallel-demand:beyond-expected-readahead(busy machine)")
+			// figure is exceeded. A figure of more than twice the expected bound (+32) is therefore confirmed by running the
+			// case ALONE three times: read-ahead under load does not survive three quiet re-runs, a stage that really reads
+			// further ahead (round-5 seed C08-15: the stop flag polled on every 256th item only) does so every time.
+			least := pc.wc.ticks
+			if pc.wc.ticks > 2*pc.limit+32 {
+				for i := 0; i < 3 && least > 2*pc.limit+32; i++ {
+					again := &workerCase{id: pc.wc.id + "r", a: pc.wc.a, flags: pc.wc.flags, src: pc.wc.src}
+					runWorkerBatch([]*workerCase{again}, false, 16, 60*time.Second)
+					if again.outcome == pc.wc.outcome && again.ticks < least {
+						least = again.ticks
+					}
+				}
+			}
+			if pc.wc.ticks > 2*pc.limit+32 && least > 2*pc.limit+32 {
+				replay["closure_evaluations_least_of_four_runs"] = least
+				c.Violation("parallel-stage-demand-beyond-readahead", fmt.Sprintf("the closure of the parallel stage was evaluated %d times (at least %d in three further runs of the case alone), more than twice the decisive prefix plus the workers' read-ahead (%d)", pc.wc.ticks, least, pc.limit), replay)
+			} else {
+				c.Count("parallel-demand:beyond-expected-readahead(busy machine)")
+			}
 		case pc.wc.ticks > pc.limit:
 			c.Violation("parallel-stage-demand-beyond-readahead", fmt.Sprintf("the closure of the parallel stage was evaluated %d times, more than the decisive prefix plus the workers' read-ahead (%d)", pc.wc.ticks, pc.limit), replay)
 		}
@@ -1436,6 +1453,55 @@ func c8argumentLists(c *Ctx) {
 	}
 }
 
+// c8abruptExit: the iteration is left by a Go PANIC of the consumer or of a comparison function (a host function that panics, the
+// value-stack guard), caught by try/catch - not by the consumer answering "stop". Whatever runs on behalf of the pipeline
+// (the producer goroutines of merge, the workers of a parallel stage, the multiUse source) has to stop all the same: no closure
+// behind the point of the fault may be evaluated, also not in the background after the evaluation has returned (round-5 seed
+// C08-14: merge set its stop flag only when yield returned false, so after a panic both sources were read to their end).
+// The worker waits until the counter of closure evaluations has come to rest (flag "settle", at most 1.5 s) before it reports.
+func c8abruptExit(c *Ctx) {
+	type xcase struct {
+		wc    *workerCase
+		limit int
+	}
+	var cases []*xcase
+	var wcs []*workerCase
+	add := func(src string, limit int) {
+		wc := &workerCase{id: fmt.Sprintf("ax%d", len(cases)), a: 0, flags: "opt settle", src: src}
+		cases = append(cases, &xcase{wc: wc, limit: limit})
+		wcs = append(wcs, wc)
+	}
+	for _, n := range []string{"100000", "1000000000"} {
+		src := "numbers(" + n + ").map(x -> tick(x))"
+		for _, exit := range []string{"boom(@)", "deep(@)", "throw(\"stop\")"} {
+			x := func(arg string) string { return strings.ReplaceAll(exit, "@", arg) }
+			pre := "func deep(n) 1 + deep(n + 1); "
+			add(pre+"try "+src+".merge("+src+", (p, q) -> if p >= 10 then "+x("p")+" else p < q).size() catch 0 - 1", 2*10+80)
+			add(pre+"try "+src+".merge(numbers("+n+"), (p, q) -> p < q).present(e -> if e >= 10 then "+x("e")+" else false) catch 0 - 1", 10+80)
+			add(pre+"try numbers("+n+").merge("+src+", (p, q) -> p < q).reduce((p, q) -> if q >= 10 then "+x("q")+" else p + q) catch 0 - 1", 10+80)
+			add(pre+"try "+src+".present(e -> if e >= 10 then "+x("e")+" else false) catch 0 - 1", 10+2)
+			add(pre+"try "+src+".accept(e -> e % 2 = 0).reduce((p, q) -> if q >= 10 then "+x("q")+" else p + q) catch 0 - 1", 10+3)
+			add(pre+"try numbers("+n+").map(x -> slow(tick(x))).present(e -> if e >= 20 then "+x("e")+" else false) catch 0 - 1", 2*(20+64)+32)
+			add(pre+"try "+src+".multiUse({u: l -> l.present(e -> if e >= 10 then "+x("e")+" else false)}).u catch 0 - 1", 10+40)
+			add(pre+"try [1, 2].cross("+src+", (u, v) -> if v >= 10 then "+x("v")+" else u + v).size() catch 0 - 1", 10+3)
+		}
+	}
+	parallelBatches(wcs, 12, false, 16, 60*time.Second)
+	for _, xc := range cases {
+		c.Case("abrupt-exit|"+xc.wc.src, true)
+		c.Count("abrupt-exit")
+		replay := map[string]any{"program": xc.wc.src, "outcome": xc.wc.outcome, "closure_evaluations_after_settling": xc.wc.ticks, "limit": xc.limit}
+		switch {
+		case xc.wc.outcome == "TIMEOUT" || xc.wc.outcome == "CRASH":
+			c.Violation("abrupt-exit-walks-the-source", "an iteration left by a fault did not return (or ended the process)", replay)
+		case xc.wc.outcome != "OK i-1":
+			c.Violation("abrupt-exit-wrong-result", "the fault was not caught by try/catch as -1: "+xc.wc.outcome, replay)
+		case c8overDemand(c, xc.wc, xc.limit):
+			c.Violation("abrupt-exit-source-read-on", fmt.Sprintf("after the iteration was left by a fault, %d closures of the pipeline were evaluated in all (counted after the evaluation had returned and the counter had come to rest, or 1.5 s later); the point of the fault allows %d", xc.wc.ticks, xc.limit), replay)
+		}
+	}
+}
+
 func c8lazyWrappers(c *Ctx) {
 	type wcase struct {
 		wc    *workerCase
@@ -1488,6 +1554,7 @@ func runC08(c *Ctx) {
 		c8listTilde(c)
 		c8lazyWrappers(c)
 		c8argumentLists(c)
+		c8abruptExit(c)
 	}
 	c.rule = "pipelines source (numbers(n) | host-provided lazy list | list literal | a+b) -> 0..3 lazy stages (map, accept, top, skip, combine, combine3, combineN, iir, iirCombine, number, compact; a counting host function inside every closure) -> short-circuit consumer (first, single, top(v).size, top(v) collected, present, indexWhere, ~, multiUse of 1..3 of them), evaluated by the real code in a child process for the decisive element at positions k in 0..200, sources of the demanded length, +1, 10^3/2*10^4 and 10^11, and a throwing element before/at/behind the decisive one in every closure and in the source; every evaluation is one case; non-trivial = at least one lazy stage between source and consumer and at least two source elements pulled (k >= 1)"
 	c.assume = append(c.assume,
